@@ -25,7 +25,7 @@ import nodeops
 PID = 'C05'
 MODNAME = 'C05'
 PROPS_FILE = 'Props/C05.v'
-COQ_FILES = ['Resolver/C05Obl.v', 'Proofs/RoundTrip.v', 'Proofs/PlainRoundTrip.v', 'Proofs/SweetenKeeps.v', 'Props/C05.v']
+COQ_FILES = ['Resolver/C05Obl.v', 'Proofs/RoundTrip.v', 'Proofs/PlainRoundTrip.v', 'Proofs/SweetenKeeps.v', 'Proofs/ClassRoundTrip.v', 'Props/C05.v']
 ASSUMPTIONS = [
     'structural part (load (represent v) = v for class-typed values) is tied, not proved: C05_roundtrip is stated _partial',
     'values whose class cannot be told from another registered class by the documented recognition rules are outside the quantifier; '
